@@ -27,6 +27,8 @@ struct ThreadMon {
 thread_local! {
     static MON: RefCell<ThreadMon> = RefCell::new(ThreadMon::default());
 }
+/// the width bound is only promised for models in which every variable impacts every state
+pub static C13_ENABLED: std::sync::atomic::AtomicBool = std::sync::atomic::AtomicBool::new(true);
 pub static MAX_EXPANSIONS_SEEN: AtomicUsize = AtomicUsize::new(0);
 pub static LAYERS_AT_WIDTH: AtomicUsize = AtomicUsize::new(0);
 pub static LAYERS_CHECKED: AtomicUsize = AtomicUsize::new(0);
@@ -56,6 +58,7 @@ fn close_layer(m: &mut ThreadMon) {
     // evaluates the C13 bound for the layer that has just been expanded
     if m.cur_var.is_none() { return; }
     let n = m.expansions_in_layer;
+    if !C13_ENABLED.load(Ordering::Relaxed) { m.expansions_in_layer = 0; return; }
     if let Some(w) = m.width {
         let rel = m.cur_depth.saturating_sub(m.root_depth);
         let ctype = m.explicit_type.unwrap_or(if m.compile_no <= 1 { 2 } else { 1 });
@@ -114,6 +117,7 @@ impl<'a, P: Problem> Problem for MonProblem<'a, P> where P::State: Clone + Eq + 
             }
         }
         let var = self.inner.next_variable(depth, &mut states.iter());
+        if crate::sched::trace_on() { eprintln!("[mon] next_variable depth={} layer={:?} -> {:?}", depth, states, var); }
         MON.with(|m| {
             let mut m = m.borrow_mut();
             close_layer(&mut m);
@@ -147,6 +151,7 @@ impl<'a, P: Problem, R: Relaxation<State = P::State>> Relaxation for MonRelax<'a
         let depths: Vec<Option<usize>> = inputs.iter().map(|s| (self.pb.depth_of)(s)).collect();
         if depths.windows(2).any(|w| w[0] != w[1]) { report_violation("C12", format!("merge called on states of different layers: {:?}", inputs)); }
         let merged = self.inner.merge(&mut inputs.iter());
+        if crate::sched::trace_on() { eprintln!("[mon] merge {:?} -> {:?}", inputs, merged); }
         MON.with(|m| m.borrow_mut().merged_since_next_variable = true);
         LAST_MERGE.with(|lm| *lm.borrow_mut() = Some(Box::new(MergeRec { inputs, merged: merged.clone() })));
         merged
